@@ -41,6 +41,9 @@ pub enum Op {
     RemoveRoute { sel: u16 },
     ExecRoute { sel: u16, amount: Uint128 },
     List { what: u8, limit: u8 },
+    /// a paged walk (pairs / trios / vaults) during which the entry that serves as the cursor is removed
+    /// right after page number `remove_at` has been fetched; the walk then goes on from that cursor
+    ListWhileRemoving { what: u8, limit: u8, remove_at: u8 },
 }
 
 #[derive(Clone, Debug, Serialize, Deserialize)]
@@ -71,6 +74,7 @@ fn op() -> BoxedStrategy<Op> {
         1 => any::<u16>().prop_map(|sel| Op::RemoveRoute { sel }),
         3 => (any::<u16>(), gen::log_uniform(1, 1u128 << 30)).prop_map(|(sel, amount)| Op::ExecRoute { sel, amount: Uint128::new(amount) }),
         7 => (0u8..4, prop_oneof![4 => 1u8..4, 2 => 1u8..=31, 1 => Just(30u8), 1 => Just(31u8), 2 => Just(0u8)]).prop_map(|(what, limit)| Op::List { what, limit }),
+        3 => (0u8..3, 1u8..4, 0u8..3).prop_map(|(what, limit, remove_at)| Op::ListWhileRemoving { what, limit, remove_at }),
     ]
     .boxed()
 }
@@ -599,6 +603,103 @@ impl Check for Registries {
                     } else if res.is_ok() {
                         rec.class("route_executed");
                     }
+                }
+                Op::ListWhileRemoving { what, limit, remove_at } => {
+                    // "listing with pagination returns every entry exactly once", with a removal between two
+                    // pages: the removed entry is the one the next page's cursor names. Every entry that
+                    // was registered when the walk began must be listed exactly once (the removed one was
+                    // on the page before its removal), nothing else may appear.
+                    let lim = Some(*limit as u32);
+                    let mut seen: Vec<String> = vec![];
+                    let mut pages = 0u32;
+                    let mut removed = false;
+                    let want: Vec<String>;
+                    match what % 3 {
+                        0 => {
+                            let mut w: Vec<String> = r.pairs.values().map(|(a, _, _)| a.to_string()).collect();
+                            w.sort();
+                            want = w;
+                            let mut cursor: Option<[AssetInfo; 2]> = None;
+                            loop {
+                                let page: factory::PairsResponse = r.w.query(&f, &factory::QueryMsg::Pairs { start_after: cursor.clone(), limit: lim }).map_err(Fail::new)?;
+                                if page.pairs.is_empty() || pages > 100 {
+                                    break;
+                                }
+                                seen.extend(page.pairs.iter().map(|p| p.contract_addr.clone()));
+                                let last = page.pairs.last().unwrap().clone();
+                                cursor = Some(last.asset_infos.clone());
+                                if pages == *remove_at as u32 {
+                                    r.w.exec(&owner, &f, &factory::ExecuteMsg::RemovePair { asset_infos: last.asset_infos.clone() }, &[])
+                                        .map_err(|e| Fail::new(format!("step {step}: removing the listed pair {} failed: {e}", last.contract_addr)))?;
+                                    if let Some(k) = r.pairs.iter().find(|(_, v)| v.0.as_str() == last.contract_addr).map(|(k, _)| *k) {
+                                        r.pairs.remove(&k);
+                                        removed_pairs.insert(k);
+                                    }
+                                    removed = true;
+                                }
+                                pages += 1;
+                            }
+                        }
+                        1 => {
+                            let mut w: Vec<String> = r.trios.values().map(|(a, _)| a.to_string()).collect();
+                            w.sort();
+                            want = w;
+                            let mut cursor: Option<[AssetInfo; 3]> = None;
+                            loop {
+                                let page: factory::TriosResponse = r.w.query(&f, &factory::QueryMsg::Trios { start_after: cursor.clone(), limit: lim }).map_err(Fail::new)?;
+                                if page.trios.is_empty() || pages > 100 {
+                                    break;
+                                }
+                                seen.extend(page.trios.iter().map(|p| p.contract_addr.clone()));
+                                let last = page.trios.last().unwrap().clone();
+                                cursor = Some(last.asset_infos.clone());
+                                if pages == *remove_at as u32 {
+                                    r.w.exec(&owner, &f, &factory::ExecuteMsg::RemoveTrio { asset_infos: last.asset_infos.clone() }, &[])
+                                        .map_err(|e| Fail::new(format!("step {step}: removing the listed trio {} failed: {e}", last.contract_addr)))?;
+                                    r.trios.retain(|_, v| v.0.as_str() != last.contract_addr);
+                                    removed = true;
+                                }
+                                pages += 1;
+                            }
+                        }
+                        _ => {
+                            let mut w: Vec<String> = r.vaults.values().map(|a| a.to_string()).collect();
+                            w.sort();
+                            want = w;
+                            let mut cursor: Option<Vec<u8>> = None;
+                            loop {
+                                let page: vault_factory::VaultsResponse = r.w.query(&vf, &vault_factory::QueryMsg::Vaults { start_after: cursor.clone(), limit: lim }).map_err(Fail::new)?;
+                                if page.vaults.is_empty() || pages > 100 {
+                                    break;
+                                }
+                                seen.extend(page.vaults.iter().map(|p| p.vault.clone()));
+                                let last = page.vaults.last().unwrap().clone();
+                                cursor = Some(last.asset_info_reference.clone());
+                                if pages == *remove_at as u32 {
+                                    r.w.exec(&owner, &vf, &vault_factory::ExecuteMsg::RemoveVault { asset_info: last.asset_info.clone() }, &[])
+                                        .map_err(|e| Fail::new(format!("step {step}: removing the listed vault {} failed: {e}", last.vault)))?;
+                                    r.vaults.retain(|_, v| v.as_str() != last.vault);
+                                    removed = true;
+                                }
+                                pages += 1;
+                            }
+                        }
+                    }
+                    // routes through a removed pair stay stored (C19 judges them at execution); the model
+                    // keeps them as they are
+                    if removed {
+                        rec.class("walk_with_cursor_entry_removed");
+                        if pages as usize > *remove_at as usize + 1 {
+                            rec.class("walk_continued_past_removed_cursor");
+                        }
+                    }
+                    let mut got = seen.clone();
+                    got.sort();
+                    ensure!(
+                        got == want,
+                        "step {step}: a paged walk (kind {}, limit {limit}) during which the cursor entry was removed after page {remove_at} listed {seen:?}; registered when the walk began: {want:?}",
+                        what % 3
+                    );
                 }
                 Op::List { what, limit } => {
                     // 0 stands for "no limit given": the contracts then page by their default of 10
